@@ -437,7 +437,14 @@ def explore(ctx, drv, model, pairs, search=False):
                 r, pc.show(s), r2, pc.show(bytes.fromhex(d["STR2"]))), rep)
         # ---- oracle 2: round trip
         rt_ok = d.get("EQ") == "1" or (d.get("EQ") == "2" and has_float(r))
-        if not rt_ok:
+        if not rt_ok and d.get("STABLE") == "0":
+            # e is not eq to the expression rebuilt from its own tree with the public constructors (not canonical:
+            # a C03/C04 matter, e.g. 10 + ceiling(GoldenRatio) with the ceiling left unevaluated): out of the fragment
+            ctx.cov.setdefault("skipped_not_stable_under_own_constructors", 0)
+            ctx.cov["skipped_not_stable_under_own_constructors"] += 1
+            if ctx.cov["skipped_not_stable_under_own_constructors"] <= 3:
+                ctx.notes.append("not stable under its own constructors (skipped): %s prints as %s" % (r[:200], pc.show(s)[:120]))
+        elif not rt_ok:
             rt_fail.append((r, d))
         # ---- correspondence: the model's string and the model's parse of it
         for k, sk, rr in (("m1", "STR", r), ("m2", "STR2", r2)):
@@ -482,7 +489,7 @@ def report_roundtrip(ctx, drv, model, fails):
         out = [parse_S(o) for o in ctx.run_lines(drv, lines, timeout=600)]
         best = None
         for x, dd in zip(subs, out):
-            if "D" in dd and not (dd.get("EQ") == "1" or (dd.get("EQ") == "2" and has_float(x))):
+            if "D" in dd and dd.get("STABLE") != "0" and not (dd.get("EQ") == "1" or (dd.get("EQ") == "2" and has_float(x))):
                 best = (x, dd)
                 break
         if best is None:
